@@ -13,7 +13,9 @@ import (
 	"reflect"
 	"sort"
 
+	"github.com/opsidian/parsley/combinator"
 	"github.com/opsidian/parsley/data"
+	"github.com/opsidian/parsley/parser"
 	"github.com/opsidian/parsley/parsley"
 	"github.com/opsidian/parsley/text"
 )
@@ -626,6 +628,24 @@ func parseC17(a args) {
 			}
 			e["calls1"], e["calls2"], e["ok"] = c1, c2, ok1 && ok2
 			prev[c.Fam] = c2
+			if c.N <= 70 && !abortedNow {
+				// the same grammar built AGAIN, late in the life of the process (after dozens of other Memoize calls): the same
+				// input costs the same number of invocations
+				for i := 0; i < 40; i++ {
+					combinator.Memoize(parser.Empty())
+				}
+				t3 := &tracer{quiet: true, budget: 1 << 30, noIndex: true}
+				old := b
+				b = &builtG{t: t3, ps: build(c.G, t3)}
+				limit = 16*c1 + 64
+				pc := prepare()
+				run(pc)
+				if c3 := pc.ctx.CallCount(); c3 != c1 {
+					e["calls2"] = c3
+				}
+				b = old
+				abortedNow = false
+			}
 			if abortedNow {
 				aborted[c.Fam]++
 			}
